@@ -1,0 +1,48 @@
+//go:build verif
+
+// Contracts for deductive verification (comment-only; compiled only with -tags verif).
+package http1
+
+// ---- C19: tracer start/finish pairing as a typestate of Server.Serve ----
+// traceOpen: 1 between a DoStart and the matching DoFinish; evDepth: stage events pushed and not yet popped.
+//@ ghost var traceOpen int
+//@ ghost var evDepth int
+
+// The event stack is owned by Serve between pool Get and Put; its effect on evDepth is assumed here
+// (three-line functions: push appends, pop removes the last element or returns nil when empty).
+//@ extern http1.eventStack.push(e, f)
+//@   modifies evDepth
+//@   ensures evDepth == old(evDepth) + 1
+//@ extern http1.eventStack.pop(e) r
+//@   modifies evDepth
+//@   ensures old(evDepth) > 0 ==> r != nil && evDepth == old(evDepth) - 1
+//@   ensures old(evDepth) <= 0 ==> r == nil && evDepth == old(evDepth)
+
+// Assumed: the pools used by the server are constructed with a New function that returns a non-nil
+// object (NewServer: &eventStack{}), so Get never yields nil.
+//@ extern sync.Pool.Get(p) r
+//@   abstract-too
+//@   ensures r != nil
+
+//@ func Server.Serve(s, c, conn) err
+//@   props C19
+//@   replay-import context
+//@   replay-import sync
+//@   replay-import time
+//@   replay-import github.com/cloudwego/hertz/pkg/app
+//@   replay-import github.com/cloudwego/hertz/pkg/common/test/mock
+//@   replay-import github.com/cloudwego/hertz/pkg/common/tracer/traceinfo
+//@   replay-go server := &Server{}; server.eventStackPool = pool; server.EnableTrace = true; server.IdleTimeout = time.Second; reqCtx := &app.RequestContext{}; ctl := &mockController{}; server.Core = &mockCore{ctxPool: &sync.Pool{New: func() interface{} { ti := traceinfo.NewTraceInfo(); ti.Stats().SetLevel(2); reqCtx.SetTraceInfo(&mockTraceInfo{ti}); return reqCtx }}, controller: ctl, isRunning: true}; server.Serve(context.TODO(), mock.NewConn("GET /a HTTP/1.1\r\nHost: a\r\n\r\n")); if ctl.FinishTimes != 1 { fmt.Println("VCGO-VIOLATED one request served on a keep-alive connection, one DoStart, DoFinish calls:", ctl.FinishTimes) }
+//@   abstract
+//@   requires traceOpen == 0 && evDepth == 0
+//@   assert before DoStart: traceOpen == 0
+//@   ghostset after DoStart: traceOpen = 1
+//@   assert before DoFinish: traceOpen == 1 && evDepth == 0
+//@   ghostset after DoFinish: traceOpen = 0
+//@   top-ensures traceOpen == 0
+//@   loop 0:
+//@     invariant traceOpen == 0 && evDepth == 0
+
+//@ func Server.Serve$1()
+//@   loop 0:
+//@     invariant evDepth >= 0 && (last == nil ==> evDepth == 0)
